@@ -54,6 +54,7 @@ def plan(tier, seed):
     for n in range(1, nmax + 1):
         shards.append(("mask", n))
     shards.append(("shapes",))
+    shards += [("grainhist", c) for c in range(4)]
     k = seed % len(shards)
     return shards[k:] + shards[:k]
 
@@ -274,7 +275,47 @@ def warm():
     check_map(sh, tm, np.array([ubi, ubi]).reshape(1, 1, 2, 3, 3), (1, 1, 2), np.array([[[True, False]]]), {})
 
 
+PROPS = ("UB", "B", "U", "Rod", "mt", "rmt", "unitcell")
+
+
+def _run_grainhist(desc):
+    """histories on ONE grain object: read some cached properties, set_ubi(another matrix), read everything again; the
+    second reading must equal that of a fresh grain (stale cached values must not survive set_ubi)"""
+    _, c = desc
+    from ImageD11 import grain as gm
+    sh = Shard()
+    R = rotations(seed_of())
+    table = [make_ubi(CELLS[ci], R[ri], STRAINS[si]) for ci, ri, si in ((0, 5, 0), (0, 5, 4), (2, 6, 0), (2, 6, 2), (8, 7, 0), (8, 7, 4), (5, 1, 3), (9, 5, 1))]
+    reads = [()] + [(p,) for p in PROPS] + [PROPS]
+    idx = 0
+    for a, ua in enumerate(table):
+        for b, ub_ in enumerate(table):
+            for first in reads:
+                idx += 1
+                if idx % 4 != c:
+                    continue
+                g = gm.grain(ua.copy())
+                for p in first:
+                    getattr(g, p)
+                g.set_ubi(ub_.copy())
+                fresh = gm.grain(ub_.copy())
+                for p in PROPS:
+                    if not close(getattr(g, p), getattr(fresh, p), 1e-12):
+                        sh.violation("grain.%s:stale-after-set_ubi" % p, {"kind": "grainhist", "first_ubi": a, "second_ubi": b,
+                                                                        "read_before_set_ubi": list(first), "seed": seed_of()},
+                                     {"got": getattr(g, p), "expected": getattr(fresh, p)})
+                        break
+                sh.evaluations += 1
+                if a != b and first:
+                    sh.nontrivial += 1
+    sh.sample({"kind": "grainhist", "first_ubi": a, "second_ubi": b, "read_before_set_ubi": list(first)}, limit=1)
+    sh.outcomes.add("grainhist")
+    return sh
+
+
 def run_shard(desc):
+    if desc[0] == "grainhist":
+        return _run_grainhist(desc)
     return {"ubi": _run_ubi, "mask": _run_mask, "shapes": _run_shapes}[desc[0]](desc)
 
 
@@ -289,6 +330,11 @@ def replay(case):
     elif case["kind"] == "mask":
         r = _run_mask(("mask", int(np.prod(case["shape"]))))
         sh.violations = [v for v in r.violations if v["case"].get("mask") == case.get("mask") and v["case"]["shape"] == case["shape"]]
+    elif case["kind"] == "grainhist":
+        for c in range(4):
+            r = _run_grainhist(("grainhist", c))
+            sh.violations += [v for v in r.violations if v["case"]["first_ubi"] == case["first_ubi"] and v["case"]["second_ubi"] == case["second_ubi"]
+                              and v["case"]["read_before_set_ubi"] == case["read_before_set_ubi"]]
     else:
         sh.violations = _run_shapes(("shapes",)).violations[:3]
     return (not sh.violations), {"violations": sh.violations}
